@@ -7,6 +7,7 @@ import os
 
 REPO = os.environ.get("REDUINO_REPO", "/repo")
 SRC = os.path.join(REPO, "src")
+VERIF = os.path.dirname(os.path.dirname(os.path.abspath(__file__)))
 
 
 class ClassInfo:
@@ -40,7 +41,7 @@ class ClassInfo:
 class ModuleInfo:
     def __init__(self, relpath):
         self.relpath = relpath
-        self.path = os.path.join(SRC, relpath)
+        self.path = os.path.join(VERIF, relpath[7:]) if relpath.startswith("@verif/") else os.path.join(SRC, relpath)
         self.text = open(self.path, encoding="utf-8").read()
         self.sha256 = hashlib.sha256(self.text.encode()).hexdigest()
         self.tree = ast.parse(self.text)
@@ -49,7 +50,15 @@ class ModuleInfo:
         self.consts = {}
         self.externs = {}
         self.module_assigns = {}
+        self.imports = {}
         for n in self.tree.body:
+            if isinstance(n, ast.ImportFrom) and n.module and n.level == 0:
+                base = n.module.replace(".", "/")
+                for cand in (base + "/__init__.py", base + ".py"):
+                    if os.path.exists(os.path.join(SRC, cand)):
+                        for al in n.names:
+                            self.imports[al.asname or al.name] = ("from", cand, al.name)
+                        break
             if isinstance(n, ast.FunctionDef):
                 self.functions[n.name] = n
             elif isinstance(n, ast.ClassDef):
